@@ -24,9 +24,10 @@ Owner(subj) ==
   IF subj \in StackOpNames THEN
      (IF StackOpOf[subj][2] = "DEFINE" THEN "C07" ELSE "C05")
   ELSE IF subj \in {"CODE.DEFINITION", "NAME.QUOTE", "step:quoted", "step:bound", "step:free"} THEN "C07"
+  ELSE IF subj = "step:empty" THEN "C02"        \* "a step on an empty EXEC stack reports completion and changes nothing"
   ELSE IF subj \in ScalarInstr \cup {"CODE.FROMBOOLEAN", "CODE.FROMFLOAT", "CODE.FROMINTEGER", "CODE.FROMNAME"} THEN "C04"
   ELSE IF subj \in {"CODE.DO", "CODE.DO*", "CODE.IF", "CODE.LOOP", "CODE.QUOTE", "INTVECTOR.LOOP",
-                    "step:list", "step:literal", "step:empty", "step:unknown", "NOOP", "CODE.NOOP",
+                    "step:list", "step:literal", "step:unknown", "NOOP", "CODE.NOOP",
                     "VERIF.PROBE", "VERIF.SLEEP"}
           \cup HarnessInstr \cup ExecInstr \cup IndexInstr THEN "C06"
   ELSE IF subj = "CODE.RAND" THEN "C12"
